@@ -56,6 +56,25 @@ def run(prop, tier, seed=0, extra=None):
         tn, ho, pi, ri = cid.split('|'); bad_records.add((tn, ho, int(pi), int(ri)))
     for cid, d in mism[:5]: inconclusive.append('symbolic record %s disagrees with the native run (not used for any verdict): %s' % (cid, json.dumps(d, default=str)[:400]))
     findings = runner.judge_all(templates, results)
+    checks_build = None
+    if prop == 'C08' and tier == 'thorough':
+        # the same histories on the MIR dumped with --features checks (the crate's internal assertions compiled in)
+        base = [t for t in templates if not any(op[0] in ('ematch', 'mmatch', 'rewrite', 'extract') for op in t.ops)]
+        r2 = runner.explore_all(base, features=('checks',), hash_orders=('ins',), budget_paths=5000, budget_s=1500)
+        for (tn, ho), r in sorted(r2.items()):
+            if r.get('status') != 'ok': inconclusive.append('checks build, template %s: %s' % (tn, r.get('reason', '?')[:300]))
+        nv2, mism2, _ = runner.validate_native(base, r2, features=('checks',))
+        for cid, d in mism2[:3]: inconclusive.append('checks build: symbolic record %s disagrees with the native run: %s' % (cid, json.dumps(d, default=str)[:300]))
+        bad2 = {tuple(cid.split('|')[:1]) for cid, d in mism2}
+        f2 = [dict(f, template=f['template'], checks_build=True) for f in runner.judge_all(base, r2) if f['prop'] == 'C08']
+        checks_build = {'templates': len(base), 'records_validated': nv2, 'paths': sum(r['stats'].get('paths', 0) for r in r2.values() if r.get('status') == 'ok'), 'findings': len(f2)}
+        n_valid += nv2
+        for f in f2:
+            f['hash_order'] = 'ins'
+            for pi, p in enumerate(r2[(f['template'], 'ins')]['paths']):
+                pass
+        findings_checks = f2
+    else: findings_checks = []
     known = common.load_known()
     violations = {}; known_hits = {}
     rec_index = {}
@@ -82,6 +101,13 @@ def run(prop, tier, seed=0, extra=None):
             if rec is None: continue      # record not validated natively: no verdict from it
             key = finding_key(f, rec.get('panic') if rec else None)
             report(f, key, '%s in template %s [%s] names=%s step=%s detail=%s' % (f['kind'], f['template'], tmap[f['template']].describe(), f['values'], f['step'], json.dumps(f['detail'], default=str)[:200]))
+    for f in findings_checks:
+        rp = None
+        key = ('checks-build:' + (('%s:%s' % (panic_key(None), f['template'])) if f['kind'] == 'panic' else '%s:%s:step%s' % (f['template'], f['kind'], f['step'])))
+        if f['kind'] == 'panic':
+            recs = [rec for p in r2[(f['template'], 'ins')]['paths'] for rec in p['records'] if rec['pattern'] == f['pattern'] and rec.get('panic')]
+            if recs: key = 'checks-build:%s:%s' % (panic_key(recs[0]['panic']), f['template'])
+        report(f, key, '[build with internal checks] %s in template %s names=%s step=%s detail=%s' % (f['kind'], f['template'], f['values'], f['step'], json.dumps(f['detail'], default=str)[:200]))
     n_cmp = 0
     if prop == 'C11':
         # all paths (name orders) and hash iteration orders of one coincidence pattern must yield the same observables
@@ -142,7 +168,7 @@ def run(prop, tier, seed=0, extra=None):
            'cross_record_comparisons': n_cmp, 'obligation_kinds': PROP_KINDS.get(prop, []) or [prop + ' cross-record comparison'],
            'bounds': 'template shapes listed under samples; every slot name a free 32-bit value (fresh-class names below the start counter %d, interned names below %d, unused residue class excluded); default build; SmallVec model capacity as declared' % (F0_DEFAULT, NAMED_MAX),
            'templates_not_covered': not_covered, 'mir_hash': next(iter(results.values())).get('mir_hash'), 'cache_hits': sum(1 for r in results.values() if r.get('cache_hit')),
-           'known_findings_hit': sorted(known_hits), 'exhaustive': False}
+           'known_findings_hit': sorted(known_hits), 'checks_feature_build': checks_build, 'exhaustive': False}
     assumptions = ['library models of mirsmt/models.py (containers as sequences / association lists; iteration order of hash containers = insertion order, also reversed%s)' % ('' if tier == 'quick' else ' and rotated'),
                    'oracle: brute-force ground congruence closure over a pool of (#names + 3) names (mirsmt/oracle.py)',
                    'every symbolic record was re-run natively on the real crate under the concrete names of its model and compared field by field',
